@@ -103,7 +103,16 @@ def main():
             continue
         functions[key] = dict(owners=sorted(owners), defaults=defaults, refusals=refusals)
     head = subprocess.run(["git", "-C", "/repo", "rev-parse", "--short", "HEAD"], capture_output=True, text=True).stdout.strip()
-    out = dict(generated_from=head, note="API census: see sa/contract.py", functions=functions)
+    # every function some property's rules consulted on this tree (used to tell a NEW override from a known, analysed one)
+    import importlib
+    from sa.report import Ctx
+    analysed = set()
+    for i in range(1, 21):
+        pid = f"C{i:02d}"
+        ctx = Ctx(m, pid, "quick")
+        importlib.import_module(f"rules.{pid.lower()}").run(ctx)
+        analysed |= set(ctx.analysed_functions)
+    out = dict(generated_from=head, note="API census: see sa/contract.py", functions=functions, analysed=sorted(analysed))
     contract.TABLE.write_text(json.dumps(out, indent=1, sort_keys=True) + "\n")
     nd = sum(len(v["defaults"]) for v in functions.values())
     nr = sum(len(v["refusals"]) for v in functions.values())
